@@ -336,7 +336,7 @@ fn wclasses_all() -> Vec<WClass> {
 
 pub fn run_c04(a: &Args) {
     let kinds = kinds8();
-    let total: u64 = if a.thorough { 60_000 } else { 8_000 };
+    let total: u64 = if a.thorough { 150_000 } else { 8_000 };
     for idx in 0..total {
         if !ctx::mine(idx) {
             continue;
@@ -423,7 +423,7 @@ fn centrality_case(rng: &mut Rng, idx: u64, thorough: bool) -> GCase {
 }
 
 pub fn run_c05(a: &Args) {
-    let total: u64 = if a.thorough { 80_000 } else { 12_000 };
+    let total: u64 = if a.thorough { 200_000 } else { 12_000 };
     for idx in 0..total {
         if !ctx::mine(idx) {
             continue;
@@ -502,7 +502,7 @@ pub fn run_c05(a: &Args) {
 }
 
 pub fn run_c06(a: &Args) {
-    let total: u64 = if a.thorough { 80_000 } else { 12_000 };
+    let total: u64 = if a.thorough { 200_000 } else { 12_000 };
     for idx in 0..total {
         if !ctx::mine(idx) {
             continue;
@@ -565,15 +565,110 @@ fn sorted_paths(p: &[Vec<String>]) -> Vec<Vec<String>> {
     v
 }
 
+/// Larger graphs (70..140 nodes: hubs, dense parts) with a reduced option product: for a few
+/// sources every optioned search must agree with the distance-only search on distance bits.
+fn c08_large(rng: &mut Rng, kinds: &[Specs]) {
+    let wcl = [WClass::Exact, WClass::ExactWide, WClass::Generic, WClass::Unweighted];
+    let mut case = boundary_case(rng, 70, 140, kinds, &wcl);
+    let mut tries = 0;
+    while case.family != "boundary-hub" && case.family != "boundary-node-count" && tries < 20 {
+        case = boundary_case(rng, 70, 140, kinds, &wcl);
+        tries += 1;
+    }
+    if rng.coin() {
+        // chained hubs: every leaf is improved several times during one search
+        let n = case.n();
+        let hubs: Vec<usize> = (0..4).map(|_| rng.below(n)).collect();
+        for w in hubs.windows(2) {
+            case.edges.push((w[0], w[1], case.wclass.draw(rng)));
+        }
+        for v in 0..n {
+            for h in &hubs {
+                if *h != v && rng.chance(2, 3) {
+                    case.edges.push((*h, v, case.wclass.draw(rng)));
+                }
+            }
+        }
+    }
+    ctx::case_desc(case.json());
+    ctx::count("reach:graph-with-70-or-more-nodes");
+    let g = case.build();
+    let d = Dense::from_graph(&g);
+    let kind = kind_class(&g);
+    let weighted = case.wclass.weighted();
+    let n = d.n;
+    for _ in 0..6 {
+        let s = rng.below(n);
+        let src = d.names[s].clone();
+        let basic = match guard("dijkstra::single_source", || dijkstra::single_source(&g, weighted, src.clone(), None, None, false, false)) {
+            Ok(Ok(m)) => m,
+            _ => {
+                ctx::violation(&format!("C08|single_source|distance-only-call-failed|{}", kind), "distance-only search failed", json!({"source": src, "graph": case.json()}));
+                return;
+            }
+        };
+        let t = d.names[rng.below(n)].clone();
+        let mut ds: Vec<f64> = basic.values().map(|i| i.distance).collect();
+        ds.sort_by(|a, b| a.partial_cmp(b).unwrap());
+        let cut = ds[ds.len() / 2];
+        for (target, cutoff, first_only, with_paths) in [
+            (None, None, true, true),
+            (None, None, true, false),
+            (Some(t.clone()), None, true, true),
+            (Some(t.clone()), None, false, false),
+            (None, Some(cut), true, true),
+            (None, Some(cut), false, false),
+        ] {
+            ctx::eval(1);
+            let opt = json!({"source": src, "target": target, "cutoff": cutoff, "first_only": first_only, "with_paths": with_paths});
+            match guard("dijkstra::single_source", || dijkstra::single_source(&g, weighted, src.clone(), target.clone(), cutoff, first_only, with_paths)) {
+                Ok(Ok(m)) => {
+                    for (k, v) in &m {
+                        match basic.get(k) {
+                            Some(b) if b.distance.to_bits() == v.distance.to_bits() => {}
+                            other => {
+                                ctx::violation(&format!("C08|single_source|option-changed-a-distance|{}", kind), "an optioned search on a large graph disagrees with the distance-only search", json!({"options": opt, "node": k, "got": v.distance, "distance_only": other.map(|b| b.distance), "graph": case.json()}));
+                                return;
+                            }
+                        }
+                    }
+                    let within = |x: f64| cutoff.map_or(true, |c| x <= c);
+                    let required: Vec<&String> = match &target {
+                        None => basic.iter().filter(|(_, b)| within(b.distance)).map(|(k, _)| k).collect(),
+                        Some(t) => basic.iter().filter(|(k, b)| *k == t && within(b.distance)).map(|(k, _)| k).collect(),
+                    };
+                    if let Some(k) = required.iter().find(|k| !m.contains_key(**k)) {
+                        ctx::violation(&format!("C08|single_source|option-dropped-an-entry|{}", kind), "an optioned search on a large graph dropped a required entry", json!({"options": opt, "node": k, "graph": case.json()}));
+                        return;
+                    }
+                }
+                Ok(Err(e)) => {
+                    ctx::violation(&format!("C08|single_source|error:{}|{}", err_name(&e.kind), kind), "optioned search failed on a large graph", json!({"options": opt, "graph": case.json()}));
+                    return;
+                }
+                Err(c) => {
+                    ctx::violation(&format!("C08|single_source|{}|{}", c.class(), kind), "optioned search panicked on a large graph", json!({"options": opt, "caught": c.json()}));
+                    return;
+                }
+            }
+        }
+    }
+    ctx::nontrivial(case.hash());
+}
+
 pub fn run_c08(a: &Args) {
     let kinds = kinds8();
     let wcl = vec![WClass::Unweighted, WClass::Exact, WClass::Exact, WClass::ExactWide, WClass::Generic, WClass::Generic, WClass::UlpsDecimal, WClass::UlpsTiny];
-    let total: u64 = if a.thorough { 12_000 } else { 6_000 };
+    let total: u64 = if a.thorough { 100_000 } else { 6_000 };
     for idx in 0..total {
         if !ctx::mine(idx) {
             continue;
         }
         let mut rng = Rng::new(mix(a.seed ^ 0xC08, idx));
+        if idx % 100 == 99 {
+            c08_large(&mut rng, &kinds);
+            continue;
+        }
         let mut case = random_case(&mut rng, 1, 8, &kinds, &wcl);
         if case.wclass == WClass::Generic && rng.coin() {
             // decimal weights such as 0.2, 0.5, 0.7: not representable, sums round
